@@ -124,7 +124,7 @@ def load_file(src_root, rel, modpath, cfg, counts, out):
                 counts['D2:mod ' + name] = 1
                 out.append(Line('', ('src', rel, lineno)))
                 continue
-            out.append(Line('%s%smod %s {' % (mm.group(1), mm.group(2), name), ('src', rel, lineno)))
+            out.append(Line('%s%smod %s { #[allow(unused_imports)] use vstd::prelude::*;' % (mm.group(1), mm.group(2), name), ('src', rel, lineno)))
             load_file(src_root, found[0], modpath + [name], cfg, counts, out)
             out.append(Line('%s}' % mm.group(1), ('src', rel, lineno)))
             continue
@@ -573,6 +573,8 @@ def macro_wrap(lines, counts):
     a = 'pub struct $instr_name;'
     if a in text and 'macro_rules! dcs_basic_command' in text:
         text = text.replace('        pub struct $instr_name;', '        ::vstd::prelude::verus!{ pub struct $instr_name;', 1)
+        text = text.replace('        impl DcsCommand for $instr_name {',
+                            '        impl DcsCommand for $instr_name { open spec fn opcode(&self) -> u8 { $instr } open spec fn params(&self) -> Seq<u8> { Seq::empty() } proof fn lemma_params_len(&self) {}', 1)
         # close: the transcriber ends with "        }\n    };\n}" after fill_params_buf
         idx = text.index('macro_rules! dcs_basic_command')
         end = text.index('\n    };', idx)
